@@ -38,6 +38,162 @@ func decoderRules(c *core.Ctx) {
 		decodeLoopRules(c, dec)
 		intBufRule(c, dec)
 	}
+	if rf := c.Func(cupPkg, "decode", "readFloat64"); rf != nil {
+		floatTextRule(c, rf)
+	}
+}
+
+// floatTextRule: the text form of a double (the score of a plain sorted set)
+// becomes a float64 in exactly one way per length byte: 253 -> NaN, 254 -> +Inf,
+// 255 -> -Inf, anything else -> strconv.ParseFloat(<the bytes read>, 64). Every
+// origin of the value returned on a successful path is followed (locals,
+// helpers); an origin that is another conversion of the text - an integer
+// parse, Atoi, a 32-bit float parse - cannot represent -0, fractions or the
+// full precision and is a violation; an origin that cannot be named is
+// UNDECIDED.
+func floatTextRule(c *core.Ctx, fn *core.Fn) {
+	const rule, key = "R3.wiring", "decoder/float-text"
+	const why = "a text-encoded double is NaN/+Inf/-Inf for the length bytes 253/254/255 and strconv.ParseFloat(text, 64) otherwise, on every successful path"
+	r := newRoler(c, fn, outsideCup)
+	r.nameParams("d")
+	caseAt := func(s flow.Site) int64 {
+		for _, k := range []int64{253, 254, 255} {
+			k := k
+			if r.e.Under(s, func(f cfgq.Fact) bool {
+				be, ok := ast.Unparen(flow.Positive(f)).(*ast.BinaryExpr)
+				if !ok || be.Op != token.EQL {
+					return false
+				}
+				for _, y := range []ast.Expr{be.X, be.Y} {
+					if v, isC := core.IntConst(s.G.Info, y); isC && v == k {
+						return true
+					}
+				}
+				return false
+			}) {
+				return k
+			}
+		}
+		return 0
+	}
+	special := map[int64]string{253: "math.NaN()", 254: "math.Inf(+)", 255: "math.Inf(-)"}
+	var wrong, unknown []string
+	seen := map[int64]bool{}
+	n := 0
+	for _, rp := range successfulReturns(r) {
+		ret := rp.Node().(*ast.ReturnStmt)
+		x := resultExpr(fn, ret, 0)
+		if x == nil {
+			// `return f()` forwarding a tuple, a bare return ...
+			if len(ret.Results) == 1 {
+				if call, ok := ast.Unparen(ret.Results[0]).(*ast.CallExpr); ok {
+					s := flow.Site{G: r.g, At: rp}
+					k := caseAt(s)
+					for _, ro := range splitTop(r.callRole(s, call, 0, 0)) {
+						n++
+						judgeFloatOrigin(ro, k, special, seen, &wrong, &unknown)
+					}
+					continue
+				}
+			}
+			unknown = append(unknown, "return form")
+			continue
+		}
+		// the value may be carried in a local: each origin is judged where it is computed
+		for _, o := range originSites(r, flow.Site{G: r.g, At: rp}, x, 0) {
+			k := caseAt(o.site)
+			for _, ro := range splitTop(o.role) {
+				n++
+				judgeFloatOrigin(ro, k, special, seen, &wrong, &unknown)
+			}
+		}
+	}
+	for _, k := range []int64{0, 253, 254, 255} {
+		if !seen[k] && len(wrong) == 0 && len(unknown) == 0 {
+			unknown = append(unknown, fmt.Sprintf("no successful return found for case %d", k))
+		}
+	}
+	switch {
+	case len(wrong) > 0:
+		c.Failf(rule, key, fn.Decl.Pos(), "%s; %s", why, strings.Join(wrong, "; "))
+	case len(unknown) > 0 || n == 0:
+		c.Undecidedf(rule, key, fn.Decl.Pos(), "cannot name every origin of the value readFloat64 returns: %s", strings.Join(unknown, "; "))
+	default:
+		c.Okf(rule, key, fn.Decl.Pos(), "%s", why)
+	}
+}
+
+// originSite is one origin of a value with the site at which it is computed
+// (the right-hand side of the definition that reaches the use).
+type originSite struct {
+	role string
+	site flow.Site
+}
+
+// originSites follows x through plain local definitions and parameter binding
+// and returns each origin's role together with the site of its computation, so
+// that a rule can ask which branch facts hold THERE.
+func originSites(r *roler, s flow.Site, x ast.Expr, depth int) []originSite {
+	x = ast.Unparen(x)
+	id, ok := x.(*ast.Ident)
+	if !ok || depth > 8 {
+		return []originSite{{r.role(s, x), s}}
+	}
+	st := r.e.Step(s, id)
+	if !st.Local || st.Unsafe {
+		return []originSite{{r.role(s, x), s}}
+	}
+	var out []originSite
+	if st.Entry {
+		if st.Bound {
+			out = append(out, originSites(r, st.ArgSite, st.Arg, depth+1)...)
+		} else {
+			out = append(out, originSite{r.role(s, id), s})
+		}
+	}
+	for _, def := range st.Defs {
+		switch {
+		case def.Zero:
+			out = append(out, originSite{zeroRole(st.Obj.Type()), def.Site})
+		case def.RHS != nil:
+			out = append(out, originSites(r, def.Site, def.RHS, depth+1)...)
+		case def.Call != nil:
+			out = append(out, originSite{r.callRole(def.Site, def.Call, def.Idx, 0), def.Site})
+		default:
+			out = append(out, originSite{"?" + id.Name, def.Site})
+		}
+	}
+	return out
+}
+
+var (
+	parseFloat64Re = regexp.MustCompile(`^strconv\.ParseFloat\(make\(\[\]byte,[^?]*\),=64\)$`)
+	otherParseRe   = regexp.MustCompile(`^(strconv\.(ParseFloat|ParseInt|ParseUint|Atoi)\(|math\.(NaN|Inf)\(|=)`)
+)
+
+var infRe = regexp.MustCompile(`^math\.Inf\(=(-?)[0-9]+\)$`)
+
+func judgeFloatOrigin(ro string, k int64, special map[int64]string, seen map[int64]bool, wrong, unknown *[]string) {
+	// math.Inf(sign): only the sign of the argument matters (>= 0: +Inf, < 0: -Inf)
+	if m := infRe.FindStringSubmatch(ro); m != nil {
+		if m[1] == "-" {
+			ro = "math.Inf(-)"
+		} else {
+			ro = "math.Inf(+)"
+		}
+	}
+	switch {
+	case k != 0 && ro == special[k], k == 0 && parseFloat64Re.MatchString(ro):
+		seen[k] = true
+	case unknownRole(ro) || !otherParseRe.MatchString(ro):
+		*unknown = append(*unknown, fmt.Sprintf("case %d: %s", k, ro))
+	default:
+		if k == 0 {
+			*wrong = append(*wrong, fmt.Sprintf("for an ordinary length byte the value is `%s`, not strconv.ParseFloat(text, 64): -0, fractions or precision are lost for the scores that take this path", ro))
+		} else {
+			*wrong = append(*wrong, fmt.Sprintf("for length byte %d the value is `%s`, expected `%s`", k, ro, special[k]))
+		}
+	}
 }
 
 // readObjectRules: R2 per value type. The type parameter is given each value
@@ -318,7 +474,7 @@ func wiring(c *core.Ctx, ro *core.Fn, ps []types.Object) {
 	}
 }
 
-var eventArgRe = regexp.MustCompile(`^(#[0-9]+|key|expiry|typ|=.*|nil|strconv\.ParseFloat\(#[0-9]+,=64\))$`)
+var eventArgRe = regexp.MustCompile(`^(#[0-9]+|key|expiry|typ|=.*|nil|strconv\.(ParseFloat|ParseInt|ParseUint|Atoi)\(#[0-9]+(,=-?[0-9]+)*\))$`)
 
 // eventArgsInVocabulary: every argument of every payload event of the term is
 // one of the forms the wiring rule knows how to judge.
